@@ -16,7 +16,9 @@ import (
 	"verif/internal/tmpl"
 )
 
-func init() { Registry["C08"] = withErrRules(checkC08, "", "compile", "gen", "idl", "idl/internal", "ast") }
+func init() {
+	Registry["C08"] = withErrRules(checkC08, "", "compile", "gen", "idl", "idl/internal", "ast")
+}
 
 var termPkgs = map[string]bool{"compile": true, "gen": true, "ast": true, "idl": true, "idl/internal": true, "internal/compare": true, "plugin": true, "": true, "internal/plugin": true, "internal/goast": true, "internal/curry": true}
 
